@@ -49,7 +49,7 @@ class C15(Check):
                                           comp=st.sampled_from(['none', 'none', 'thickness', 'radius']),
                                           method=st.sampled_from(['generic', 'least_squares']),
                                           mode=st.sampled_from(['sensitivity', 'monte_carlo', 'monte_carlo']),
-                                          iters=st.integers(1, 6)))
+                                          iters=st.integers(1, 6), pickup=st.booleans()))
 
     def describe(self, case):
         s = case['spec']
@@ -93,7 +93,8 @@ class C15(Check):
                 cand = list(range(1, K + 1))
                 kw['axis'] = pd_['axis']
             cand = [k for k in cand if (vt, k, kw.get('axis')) not in used and not (case['comp'] == 'radius' and vt == 'radius'
-                                                                                      and k == self.comp_surface)]
+                                                                                      and k == self.comp_surface)
+                    and not (self.pick and vt == 'radius' and k in self.pick)]
             if not cand:
                 continue
             k = cand[pd_['s'] % len(cand)]
@@ -161,6 +162,13 @@ class C15(Check):
         fin = [k for k in range(1, K + 1) if spec['surfs'][k - 1]['R'] != GL.INF]
         if case['comp'] == 'radius' and fin:
             self.comp_surface = fin[-1]
+        # optionally a radius pickup whose source is the radius compensator's surface: the compensation then moves a second
+        # surface through the pickup
+        self.pick = None
+        if case.get('pickup') and len(fin) >= 2 and case['comp'] == 'radius':
+            self.pick = (fin[-1], fin[0])
+            o.pickups.add(fin[-1], 'radius', fin[0], scale=-1.0, offset=0.0)
+            o.update()
         tol = Tolerancing(o, method=case['method'], tol=1e-6)
         for od in case['operands']:
             t, data = self.operand_data(od, o, K)
@@ -200,6 +208,8 @@ class C15(Check):
         out.cls(*GL.spec_classes(spec))
         out.cls('mode_' + case['mode'], 'comp_' + case['comp'], 'method_' + case['method'])
         o, tol, plan = self.setup(case, spec)
+        if self.pick:
+            out.cls('compensator_is_a_pickup_source')
         if not plan:
             out.cls('no_applicable_perturbation')
             return
